@@ -68,8 +68,9 @@ func (c *FrameCodec) Decode(src *sonic.ByteBuffer) (Frame, error) {
 	}
 	c.decodeFrame = src.Data()[:readSoFar]
 
+	// A 64-bit length with the top bit set converts to a negative int: it is over any maximum.
 	payloadLength := c.decodeFrame.PayloadLength()
-	if payloadLength > c.maxMessageSize {
+	if payloadLength < 0 || payloadLength > c.maxMessageSize {
 		c.decodeFrame = nil
 		return nil, ErrPayloadOverMaxSize
 	}
